@@ -12,12 +12,17 @@
 //   The write probe toggles bit 0 of physical channel 0 of pixel (0,0) of the RESULT view (writable results only,
 //   non-empty only), then dumps the whole source image: a view transformation must alias the source.
 //
+//   xf2 <T> <w> <h> <s> <op1> [params] then <op2> [params]
+//     op2(op1(view)): the second lifted transformation runs on the mapped type list produced by the first one
+//     (any_image_view of step views / of a sub-rectangle). op1 geometric (flip*, rot*, transpose, sub, subs);
+//     op2 geometric, nth n (list without g1) or cc g8 / ccx rgb8. Same observation format.
+//
 //   Operations whose any_image_view overload does not compile on the tree under test are compiled out by the
 //   check (no HAVE_<FEATURE> define) and answer  A:err:no-compile.
 #include "c14.hpp"
 using namespace c14;
 #ifndef XF_GROUP
-#error "compile with -DXF_GROUP=1..5 (1 geometry, 2 sub/subsample/nth, 3 cc, 4 ccx, 5 any_color_converted_view)"
+#error "compile with -DXF_GROUP=1..9 (1 geometry, 2 sub/subsample/nth, 3 cc, 4 ccx, 5 any_color_converted_view, 6..9 compositions by first op)"
 #endif
 
 template <typename P> struct pinfo;
@@ -126,9 +131,67 @@ std::string by_pixel_all(std::string const& P, std::string const& T, std::ptrdif
     return by_pixel<L7, OpT>(P, T, w, h, s);
 }
 
+
+// ---- compositions of two lifted transformations
+template <typename AnyImg, typename Op1, typename Op2>
+std::string run_xf2(std::string const& T, std::ptrdiff_t w, std::ptrdiff_t h, uint64_t s, Op1 const& op1, Op2 const& op2) {
+    std::string out = "bad-type";
+    with_type<AnyImg>(T, [&](auto tc) {
+        using Img = typename decltype(tc)::type;
+        int din = info<Img>::depth, dout = op2.out_depth(op1.out_depth(din));
+        Img cimg = make<Img>(w, h, s);
+        auto cr = op2.conc(op1.conc(gil::view(cimg)));
+        using conc_result_t = decltype(cr);
+        std::string C = "C:ok " + describe(cr, dout);
+        if constexpr (Op1::writable && Op2::writable) toggle00(cr);
+        C += " src=" + dump(gil::const_view(cimg), din);
+        if constexpr (Op1::compiled && Op2::compiled) {
+            AnyImg a(make<Img>(w, h, s));
+            auto ar = op2.any(op1.any(gil::view(a)));
+            bool ty = v2::visit([](auto const& v) { return std::is_same<typename std::decay<decltype(v)>::type, conc_result_t>::value; }, ar);
+            std::string A = "A:ok i=" + std::to_string(ar.index()) + " ty=" + (ty ? "1" : "0") + " " + describe_any(ar, dout);
+            if constexpr (Op1::writable && Op2::writable) v2::visit([](auto const& v) { toggle00(v); }, ar);
+            A += " src=" + dump_any(gil::const_view(a), din);
+            out = A + " | " + C;
+        } else out = "A:err:no-compile | " + C;
+    });
+    return out;
+}
+
+// parse the geometric op starting at a[i]; calls f(op) and advances i past its parameters
+template <typename F> bool with_geom(std::vector<std::string> const& a, size_t& i, int group, F&& f) {
+    auto N = [&](size_t k) { return (std::ptrdiff_t)hv::to_ll(a.at(k)); };
+    std::string const& o = a.at(i);
+    if ((group == 0 || group == 6) && o == "flipud")   { ++i; f(FlipUD()); return true; }
+    if ((group == 0 || group == 6) && o == "fliplr")   { ++i; f(FlipLR()); return true; }
+    if ((group == 0 || group == 7) && o == "rot90cw")  { ++i; f(Rot90cw()); return true; }
+    if ((group == 0 || group == 7) && o == "rot90ccw") { ++i; f(Rot90ccw()); return true; }
+    if ((group == 0 || group == 8) && o == "rot180")   { ++i; f(Rot180()); return true; }
+    if ((group == 0 || group == 8) && o == "transpose") { ++i; f(Transposed()); return true; }
+    if ((group == 0 || group == 9) && o == "sub" && i + 4 < a.size())  { Sub op; op.x0 = N(i + 1); op.y0 = N(i + 2); op.w = N(i + 3); op.h = N(i + 4); i += 5; f(op); return true; }
+    if ((group == 0 || group == 9) && o == "subs" && i + 2 < a.size()) { Subs op; op.sx = N(i + 1); op.sy = N(i + 2); i += 3; f(op); return true; }
+    return false;
+}
+
 int main() {
     return hv::run([](std::string const& line) -> std::string {
         auto a = hv::words(line);
+#if XF_GROUP >= 6
+        if (a.size() >= 8 && a[0] == "xf2") {
+            std::string T = a[1]; std::ptrdiff_t w = hv::to_ll(a[2]), h = hv::to_ll(a[3]); uint64_t s = hv::to_ull(a[4]);
+            std::string out = "bad-op"; size_t i = 5;
+            bool ok1 = with_geom(a, i, XF_GROUP, [&](auto op1) {
+                if (i >= a.size() || a[i] != "then") return;
+                size_t j = i + 1;
+                if (j >= a.size()) return;
+                if (a[j] == "nth" && j + 1 < a.size()) { Nth o; o.n = (int)hv::to_ll(a[j + 1]); out = run_xf2<L6>(T, w, h, s, op1, o); return; }
+                if (a[j] == "cc" && j + 1 < a.size() && a[j + 1] == "g8") { out = run_xf2<L7>(T, w, h, s, op1, CC<gil::gray8_pixel_t>()); return; }
+                if (a[j] == "ccx" && j + 1 < a.size() && a[j + 1] == "rgb8") { out = run_xf2<L7>(T, w, h, s, op1, CCX<gil::rgb8_pixel_t>()); return; }
+                with_geom(a, j, 0, [&](auto op2) { out = run_xf2<L7>(T, w, h, s, op1, op2); });
+            });
+            return ok1 ? out : std::string("other-tu");
+        }
+#endif
         if (a.size() < 6 || a[0] != "xf") return "bad-op";
         std::string T = a[1]; std::ptrdiff_t w = hv::to_ll(a[2]), h = hv::to_ll(a[3]); uint64_t s = hv::to_ull(a[4]);
         std::string op = a[5];
